@@ -289,7 +289,25 @@ fn cmp_view_pre(cx: &mut Ctx, pre: &str, path: &str, view: &VNode, d: &AutoCommi
     let want = VNode::from_snapshot(&o.snap).to_json(enc);
     let got = view.to_json(enc);
     if let Some(diff) = first_diff(&want, &got) {
-        cx.violation(&format!("{pre}view-differs|{path}|{}|blocks={}", class_of(&diff), has_blocks(&want)), format!("after {path}: document (left) vs view maintained from patches (right) {diff}"), json!({"encoding": enc_name(enc), "patch_kinds": patch_kinds(patches), "patches": patches.iter().take(12).map(|p| format!("{} {:?} {:?}", exid_str(&p.obj), p.path.iter().map(|x| format!("{:?}", x.1)).collect::<Vec<_>>(), p.action)).collect::<Vec<_>>(), "log": tail(log, 25)}));
+        // a value difference at a key for which this very step emitted a bare Conflict patch (the
+        // winner changed but only the flag was reported) is its own, narrower class
+        let mut class = class_of(&diff).to_string();
+        if class == "map-value-or-structure" || class == "list-value" {
+            let dpath = diff.split(':').next().unwrap_or("");
+            let segs: Vec<&str> = dpath.split('/').collect();
+            let key = segs.iter().rposition(|s| *s == "map" || *s == "list").and_then(|i| segs.get(i + 1)).copied().unwrap_or("");
+            let hit = patches.iter().any(|p| match &p.action {
+                automerge::PatchAction::Conflict { prop } => match prop {
+                    automerge::Prop::Map(k) => k == key,
+                    automerge::Prop::Seq(i) => i.to_string() == key,
+                },
+                _ => false,
+            });
+            if hit {
+                class.push_str("+bare-conflict-patch");
+            }
+        }
+        cx.violation(&format!("{pre}view-differs|{path}|{class}|blocks={}", has_blocks(&want)), format!("after {path}: document (left) vs view maintained from patches (right) {diff}"), json!({"encoding": enc_name(enc), "patch_kinds": patch_kinds(patches), "patches": patches.iter().take(12).map(|p| format!("{} {:?} {:?}", exid_str(&p.obj), p.path.iter().map(|x| format!("{:?}", x.1)).collect::<Vec<_>>(), p.action)).collect::<Vec<_>>(), "log": tail(log, 25)}));
         return false;
     }
     true
